@@ -12,25 +12,37 @@
 (* specification is exact) or lies in the permitted set (where it is       *)
 (* permissive: pieces of a segmented read, size_linear of a segmented      *)
 (* block, calls with arguments outside the byte-string domain, refusal of  *)
-(* a write mapping while the area has several windows).  A sanitizer       *)
-(* report / crash is logged as {"e":"crash"}, which no action accepts.     *)
-(* Executions are concatenated, separated by Reset lines carrying the      *)
-(* manager configuration (prepend, align).                                 *)
+(* a write mapping while the area has several windows, refusal of a        *)
+(* prepend).  A sanitizer report / crash is logged as {"e":"crash"}, which *)
+(* no action accepts.  Executions are concatenated, separated by Reset     *)
+(* lines carrying the manager configuration (prepend, align).              *)
+(*                                                                         *)
+(* Tolerant = FALSE: TLC stops at the first line no action accepts         *)
+(* (Accepted prints TRACE_REJECTED_AT).  Tolerant = TRUE (used to localise *)
+(* a rejection among many short executions in one run): the rejected line  *)
+(* is recorded in bad, the rest of that execution is skipped, and Report   *)
+(* prints TRACE_BAD at the end.                                            *)
 (***************************************************************************)
 EXTENDS BlockBuf, Json, IOUtils
+
+CONSTANT Tolerant
 
 Tr == ndJsonDeserialize(IOEnv.TRACE)
 
 VARIABLES l,       \* next line of Tr
           pre,     \* manager prepend of the current execution
-          align    \* manager align of the current execution
+          align,   \* manager align of the current execution
+          skip,    \* Tolerant: the current execution was rejected
+          cur,     \* Tolerant: id of the current execution
+          bad      \* Tolerant: {<<execution id, rejected line>>}
 
-tvars == <<vars, l, pre, align>>
+tvars == <<vars, l, pre, align, skip, cur, bad>>
 THandles == 0..31
 
 E == Tr[l]
 A(i) == Tr[l].a[i]
-IsEv(e) == l <= Len(Tr) /\ Tr[l].e = e /\ l' = l + 1 /\ UNCHANGED <<pre, align>>
+IsEv(e) == /\ l <= Len(Tr) /\ ~skip /\ Tr[l].e = e /\ l' = l + 1
+           /\ UNCHANGED <<pre, align, skip, cur, bad>>
 
 \* a result that was read back (after a call outside the domain that
 \* reported success) must be self-consistent: size() octets can be extracted
@@ -47,6 +59,8 @@ RoomOK(room) == room >= pre /\ room <= pre + align
 TReset ==
   /\ l <= Len(Tr) /\ Tr[l].e = "Reset" /\ l' = l + 1
   /\ pre' = Tr[l].pre /\ align' = Tr[l].align
+  /\ skip' = FALSE /\ bad' = bad
+  /\ cur' = IF "hid" \in DOMAIN Tr[l] THEN Tr[l].hid ELSE 0
   /\ areas' = <<>> /\ hs' = <<>> /\ str' = <<>> /\ fresh' = {}
   /\ last' = Rec("init", <<>>, <<>>, <<>>, "ok", -1, <<>>, TRUE, TRUE, FALSE)
   /\ mayChange' = {} /\ step' = 0 /\ hist' = <<>>
@@ -68,7 +82,12 @@ TInsert == IsEv("insert") /\ Insert(A(1), A(2), A(3)) /\ Acc
 TDelete == IsEv("delete") /\ Delete(A(1), A(2), A(3)) /\ Acc
 TTruncate == IsEv("truncate") /\ Truncate(A(1), A(2)) /\ Acc
 TResize == IsEv("resize") /\ Resize(A(1), A(2), A(3)) /\ Acc
-TPrepend == IsEv("prepend") /\ Prepend(A(1), A(2)) /\ Acc
+\* the statement does not say when prepend must succeed: a refusal that changes
+\* nothing is always accepted; a success only if the room exists
+TPrepend == /\ IsEv("prepend")
+            /\ \/ Prepend(A(1), A(2))
+               \/ E.r = "err" /\ A(1) \in Live /\ Refuse("prepend", <<A(1), A(2)>>, "err")
+            /\ Acc
 TFree == IsEv("free") /\ Free(A(1)) /\ Acc
 TWmap == IsEv("wmap") /\ (\E gr \in BOOLEAN : Write("wmap", A(1), A(2), 0, gr)) /\ Acc
 TPoke == IsEv("poke") /\ (\E gr \in BOOLEAN : Write("poke", A(1), A(2), A(3), gr)) /\ Acc
@@ -100,14 +119,25 @@ TAudit == /\ IsEv("audit")
              ELSE Obs("audit", <<A(1)>>, <<>>, <<>>, "none", -1, <<>>, TRUE, TRUE)
           /\ Acc
 
-TInit == /\ l = 1 /\ pre = 0 /\ align = 0 /\ Init
-TNext == \/ TReset \/ TAlloc \/ TDup \/ TSplice \/ TSplit \/ TCopy \/ TMerge \/ TAppend
+TCall == \/ TAlloc \/ TDup \/ TSplice \/ TSplit \/ TCopy \/ TMerge \/ TAppend
          \/ TInsert \/ TDelete \/ TTruncate \/ TResize \/ TPrepend \/ TFree \/ TWmap \/ TPoke
          \/ TSize \/ TRange \/ TRd1 \/ TSlin \/ TScan \/ TFind \/ TCompare \/ TEqual
          \/ TMatch \/ TAudit
+
+\* Tolerant: no action accepts the line - note it, skip the rest of the execution
+TRejectHere == /\ Tolerant /\ ~skip /\ l <= Len(Tr) /\ Tr[l].e # "Reset"
+               /\ ~ENABLED TCall
+               /\ skip' = TRUE /\ bad' = bad \cup {<<cur, l>>} /\ l' = l + 1
+               /\ UNCHANGED <<vars, pre, align, cur>>
+TSkip == /\ skip /\ l <= Len(Tr) /\ Tr[l].e # "Reset" /\ l' = l + 1
+         /\ UNCHANGED <<vars, pre, align, skip, cur, bad>>
+
+TInit == /\ l = 1 /\ pre = 0 /\ align = 0 /\ skip = FALSE /\ cur = 0 /\ bad = {} /\ Init
+TNext == TReset \/ TCall \/ TRejectHere \/ TSkip
 TSpec == TInit /\ [][TNext]_tvars
 
 Accepted == LET d == TLCGet("stats").diameter IN
             IF d - 1 = Len(Tr) THEN PrintT(<<"TRACE_ACCEPTED", Len(Tr)>>)
                                ELSE PrintT(<<"TRACE_REJECTED_AT", d>>)
+Report == (l = Len(Tr) + 1) => PrintT(<<"TRACE_BAD", bad>>)
 =============================================================================
